@@ -8,10 +8,16 @@ import (
 	"fmt"
 	"strconv"
 	"strings"
+	"testing/fstest"
 	"testing/iotest"
 	"time"
 
+	"github.com/foxboron/go-uefi/efi"
+	"github.com/foxboron/go-uefi/efi/efitest"
+	efifs "github.com/foxboron/go-uefi/efi/fs"
 	"github.com/foxboron/go-uefi/efi/signature"
+	"github.com/foxboron/go-uefi/efivar"
+	"github.com/foxboron/go-uefi/efivarfs/testfs"
 
 	"verif/internal/hx"
 	"verif/ref/refesl"
@@ -24,7 +30,7 @@ func init() {
 		ID:    "C08",
 		Level: "exploration",
 		Rule: "from every well-formed stream of <=2 lists (C07 shapes): every truncation point; every value of a boundary alphabet in each of the three size fields of each list, and every pair of fields (deviation bound 2); " +
-			"each type GUID replaced by every signature-scheme GUID the decoder does not handle and by an unknown GUID; trailing garbage of every length 1..76; lists with a 1 MiB+ entry truncated near every power-of-two boundary and with size fields overstating the data; every derived input also through byte-at-a-time, half-sized and data-with-EOF readers. Oracle: library returns nil error => the reference decoder accepts the whole input " +
+			"each type GUID replaced by every signature-scheme GUID the decoder does not handle and by an unknown GUID; trailing garbage of every length 1..76; lists with a 1 MiB+ entry truncated near every power-of-two boundary and with size fields overstating the data; every derived input also through byte-at-a-time, half-sized and data-with-EOF readers, through SignatureDatabase.Unmarshal (whose source buffer is scribbled over afterwards), and a fiftieth of them as the content of db through Efivarfs.Getdb and the package-level efi.Getdb, which must give the decoder's verdict. Oracle: library returns nil error => the reference decoder accepts the whole input " +
 			"and the returned lists equal the reference's. non-trivial = derived input differs from its seed and is rejected by the reference (the library must report an error); distinct = distinct input bytes",
 		Assumptions: []string{"reference decoder refesl applies exactly the statement's rule", "a zero-entry list whose SignatureSize is below 16 is not judged (size equation holds, 'at least 16' does not; the library's own NewSignatureList produces it)"},
 		Units: func(tier string) []string {
@@ -58,10 +64,41 @@ func c08Judge(c *hx.Ctx, in []byte, class string, seed []byte) {
 	var uerr error
 	var udb signature.SignatureDatabase
 	readerDep := false
+	aliased := false
+	twin := ""
 	if p := hx.Try(func() {
 		db, err = signature.ReadSignatureDatabase(bytes.NewReader(in))
 		// the entry point the efivarfs accessors use
-		uerr = udb.Unmarshal(bytes.NewBuffer(append([]byte{}, in...)))
+		store := append([]byte{}, in...)
+		uerr = udb.Unmarshal(bytes.NewBuffer(store))
+		if uerr == nil {
+			// what was decoded stays what it is when the caller reuses the buffer's storage
+			before := append([]byte{}, udb.Bytes()...)
+			for i := range store {
+				store[i] ^= 0xa5
+			}
+			if !bytes.Equal(before, udb.Bytes()) {
+				aliased = true
+			}
+			var again signature.SignatureDatabase
+			if again.Unmarshal(bytes.NewBuffer(append([]byte{}, in...))) == nil {
+				udb = again
+			}
+		}
+		// the same bytes as the value of db through the other accessors: the Efivarfs typed accessor
+		// and the package-level twin must give the verdict the decoder gives
+		if c.Index()%50 == 0 {
+			file := fstest.MapFS{efivarsDir + "db-" + refFormat(*efivar.Db.GUID): &fstest.MapFile{Data: append([]byte{0x27, 0, 0, 0}, in...)}}
+			tdb, terr := testfs.NewTestFS().With(file).Open().Getdb()
+			efifs.SetFS(efitest.FromMapFS(file))
+			ldb, lerr := efi.Getdb()
+			switch {
+			case (terr == nil) != (err == nil) || (terr == nil && !bytes.Equal(tdb.Bytes(), db.Bytes())):
+				twin = "Efivarfs.Getdb"
+			case len(in) > 0 && ((lerr == nil) != (err == nil) || (lerr == nil && !bytes.Equal(ldb.Bytes(), db.Bytes()))):
+				twin = "package-level efi.Getdb"
+			}
+		}
 		// a reader that hands out its last bytes together with io.EOF, and one that trickles
 		if c.Index()%7 == 0 {
 			d3, e3 := signature.ReadSignatureDatabase(iotest.DataErrReader(bytes.NewReader(in)))
@@ -77,6 +114,16 @@ func c08Judge(c *hx.Ctx, in []byte, class string, seed []byte) {
 	}
 	if rerr != nil && !bytes.Equal(in, seed) {
 		c.Nontrivial(in)
+	}
+	if aliased {
+		c.Outcome("aliases-input")
+		c.Violation("C08 the decoded database changes when the caller reuses the buffer it was decoded from ("+class+")", map[string]any{"input": hx8(in), "class": class})
+		return
+	}
+	if twin != "" {
+		c.Outcome("accessors-disagree")
+		c.Violation("C08 "+twin+" gives another verdict or other lists than ReadSignatureDatabase for the same variable content ("+class+")", map[string]any{"input": hx8(in), "class": class, "decoder_error": fmt.Sprint(err)})
+		return
 	}
 	if readerDep {
 		c.Outcome("verdict-depends-on-read-portions")
